@@ -177,6 +177,15 @@ def searchCandidates : List String :=
   -- a target that differs must not be returned as ok
   hist ["get 0 0 one t=hc1", "found 0 1 hc0"] ++
   hist ["get 0 0 n2 t=hc1", "found 0 1 hc0", "found 0 2 hc0"] ++
+  -- register targets: a superset / subset of the expected ops, another base, an undecodable record
+  hist ["get 0 0 one t=r0g.1 reg", "found 0 1 r0g.1.2"] ++
+  hist ["get 0 0 one t=r0g.1.2 reg", "found 0 1 r0g.1"] ++
+  hist ["get 0 0 one t=r0g.1 reg", "found 0 1 r1g.1"] ++
+  hist ["get 0 0 one t=hr0 reg", "found 0 1 hr0"] ++
+  hist ["get 0 0 n2 t=r0g.0 reg", "found 0 1 r0g.0.1", "found 0 2 r0g.0.1"] ++
+  -- Quorum::N above the close group size
+  hist ["get 0 0 n6", "found 0 1 hc0", "found 0 2 hc0", "found 0 3 hc0", "found 0 4 hc0", "found 0 5 hc0", "finished 0"] ++
+  hist ["get 0 0 n7", "found 0 1 hc0", "found 0 2 hc0", "found 0 3 hc0", "found 0 4 hc0", "found 0 5 hc0", "found 0 6 hc0", "found 0 7 hc0"] ++
   -- split
   hist ["get 0 0 n2", "found 0 1 hc0", "found 0 2 hc1", "found 0 3 hc1"] ++
   hist ["get 0 0 n2", "found 0 1 hc0", "found 0 2 hc1", "finished 0"]
